@@ -3,6 +3,7 @@ use crate::vm::heap::Heap;
 use crate::vm::opcode::OpCode;
 use crate::vm::stack::Stack;
 use crate::vm::vcell::VCell;
+use std::rc::Rc;
 
 /// Stack Frame
 ///
@@ -12,7 +13,9 @@ use crate::vm::vcell::VCell;
 #[derive(Debug)]
 pub struct StackFrame {
     pub name: Option<String>,
-    pub desc: Option<Cell>,
+    /// The formals of the applied procedure, shared with the procedure: a deep copy per
+    /// frame would make a trace of n frames n times the size of the formals.
+    pub desc: Option<Rc<Cell>>,
 }
 
 /// Stack Trace
